@@ -25,19 +25,8 @@ def mfront_generate(c, files, outdir, extra=()):
     inner = "mount -t tmpfs tmpfs /dev/shm && exec " + " ".join(shlex.quote(x) for x in cmd)
     rc, out, err = c.run(["unshare", "-m", "sh", "-c", inner], cwd=outdir, timeout=300)
     if rc != 0 and ("unshare" in err or "mount" in err or "Operation not permitted" in err):
-        sem = _sem_path()
-        saved = None
-        existed = os.path.exists(sem)
-        if existed:
-            saved = open(sem, "rb").read()
-        try:
-            rc, out, err = c.run(cmd, cwd=outdir, timeout=300)
-        finally:
-            if existed:
-                with open(sem, "wb") as f:
-                    f.write(saved)
-            elif os.path.exists(sem):
-                os.unlink(sem)
+        # no private namespace available: plain run (vlib.run); the shared semaphore file is never rewritten
+        rc, out, err = c.run(cmd, cwd=outdir, timeout=300)
     if rc != 0:
         raise vlib.BuildError("mfront failed on %s:\n%s" % (files, (out + err)[-3000:]))
     return outdir
